@@ -63,9 +63,14 @@ var resultTypeCount int
 //	    })
 //	 })
 func ResultType(identifier string, args ...any) *expr.ResultTypeExpr {
+	// don't return nil to avoid panics in the DSL functions given the result,
+	// the error will get reported at the end
+	invalid := func() *expr.ResultTypeExpr {
+		return expr.NewResultTypeExpr("InvalidResultType", "text/plain", nil)
+	}
 	if _, ok := eval.Current().(eval.TopExpr); !ok {
 		eval.IncompatibleDSL()
-		return nil
+		return invalid()
 	}
 
 	var (
@@ -99,7 +104,7 @@ func ResultType(identifier string, args ...any) *expr.ResultTypeExpr {
 				}
 				if len(args) > 2 {
 					eval.TooManyArgError()
-					return nil
+					return invalid()
 				}
 			}
 		}
@@ -111,7 +116,7 @@ func ResultType(identifier string, args ...any) *expr.ResultTypeExpr {
 			eval.ReportError(
 				"result type %#v with canonical identifier %#v is defined twice",
 				identifier, canonicalID)
-			return nil
+			return invalid()
 		}
 	}
 	// Add the type to the generated types root for later evaluation.
